@@ -249,6 +249,15 @@ class Typer:
             self._bind(env, n.target, self.type_of(f, n.value, env))
         elif isinstance(n, ast.ExceptHandler) and n.name:
             env.setdefault(n.name, EMPTY)
+        elif isinstance(n, ast.Expr) and isinstance(n.value, ast.Call) and isinstance(n.value.func, ast.Attribute) and isinstance(n.value.func.value, ast.Name) \
+                and n.value.func.attr in ("append", "add", "appendleft") and len(n.value.args) == 1:
+            # a local list / set / deque learns its element type from what is put in
+            nm = n.value.func.value.id
+            cur = env.get(nm)
+            if cur is not None and nm not in f.params and all(a[0] == "seq" for a in cur):
+                t = self.type_of(f, n.value.args[0], env)
+                if t:
+                    env[nm] = frozenset({("seq", elem(cur) | t)})
 
     def iter_elem(self, f, it: ast.expr, env=None) -> frozenset:
         env = env if env is not None else self.env(f)
